@@ -309,7 +309,115 @@ def run_plain(case: dict):
     return ok(**info)
 
 
+# ------------------------------------------------------------------ live sockets (thorough tier)
+
+_live20: dict = {}
+LIVE_ROWS = ["start-supplied", "start-supplied-rules", "start-auto", "start-auto-rules"]
+
+
+def _live_port(row: str) -> int:
+    if row in _live20:
+        return _live20[row]
+    import socket
+    import time
+    from pathlib import Path
+
+    from nauyaca.server import server as srv
+    from nauyaca.server.config import ServerConfig
+    from nauyaca.server.middleware import CertificateAuthConfig, CertificateAuthPathRule
+    from vlib import livenet
+
+    setup_logging()
+    srv.print = lambda *a, **k: None  # the self-signed fall-backs print to stdout
+    c = certs.get("rsa-a")
+    root = scratch.subdir("c20-live-root")
+    with open(os.path.join(root, "index.gmi"), "w") as f:
+        f.write("SERVED")
+    port = livenet.free_port()
+    if "supplied" in row:
+        cfg = ServerConfig(host="127.0.0.1", port=port, document_root=root, certfile=c.cert_path, keyfile=c.key_path)
+    else:
+        cfg = ServerConfig(host="127.0.0.1", port=port, document_root=root)
+    kw = {}
+    if row.endswith("rules"):
+        kw["certificate_auth_config"] = CertificateAuthConfig(path_rules=[CertificateAuthPathRule(prefix="/admin/", require_cert=True)])
+    old = tempfile.tempdir
+    tempfile.tempdir = scratch.subdir("c20-live-tmp")
+
+    async def run():
+        await srv.start_server(cfg, log_file=Path("/dev/null"), enable_rate_limiting=False, **kw)
+
+    livenet.bg().start_task(run)
+    for _ in range(200):
+        try:
+            socket.create_connection(("127.0.0.1", port), timeout=0.5).close()
+            break
+        except OSError:
+            time.sleep(0.05)
+    tempfile.tempdir = old
+    _live20[row] = port
+    return port
+
+
+def enum_live(tier):
+    for row in LIVE_ROWS:
+        for vn in VERS:
+            yield {"row": row, "v": vn, "plain": None}
+        for i, payload in enumerate([b"gemini://localhost/\r\n", b"\r\n", b"titan://localhost/x;size=1\r\nA", b"\x16\x03\x01\x00\x05hello",
+                                     b"GET / HTTP/1.1\r\nHost: x\r\n\r\n", b"gemini://localhost/" + b"a" * 2000 + b"\r\n"]):
+            yield {"row": row, "v": None, "plain": b2s(payload)}
+
+
+def run_live(case: dict):
+    import socket
+
+    from vlib import livenet
+    from vlib.core import HarnessError
+
+    port = _live_port(case["row"])
+    if case["plain"] is not None:
+        sk = socket.create_connection(("127.0.0.1", port), timeout=5)
+        sk.settimeout(3)
+        got = b""
+        try:
+            sk.sendall(s2b(case["plain"]))
+            while True:
+                d = sk.recv(65536)
+                if not d:
+                    break
+                got += d
+        except socket.timeout:
+            pass  # still inside the handshake timeout (a few plaintext bytes are not even a record header): no answer is fine
+        except OSError:
+            pass
+        finally:
+            sk.close()
+        if GEMINI_RESP.search(got):
+            return viol("gemini-response-to-plaintext", f"{case['row']}: {got[:80]!r}")
+        return ok(raw=b2s(got[:20]))
+    vn = case["v"]
+    cctx = memnet.permissive_client_ctx(VERS[vn], VERS[vn], seclevel0=True)
+    r = livenet.tls_fetch(port, b"gemini://localhost/\r\n", cctx, deadline_s=20)
+    info = {"handshake": r["handshake_ok"], "negotiated": r["version"]}
+    if vn in ("1.0", "1.1"):
+        if not _control(vn):
+            return viol("control-failed", f"TLS {vn} not negotiable by control peers", **info)
+        if r["handshake_ok"]:
+            return viol("old-tls-accepted", f"live {case['row']}: handshake completed at {r['version']}", **info)
+        return ok(**info)
+    if not r["handshake_ok"]:
+        return viol("tls12plus-refused", f"live {case['row']} refused TLS {vn}: {r['error']}", **info)
+    if not r["data"].startswith(b"20 ") or b"SERVED" not in r["data"]:
+        return viol("tls12plus-not-served", f"{r['data'][:60]!r}", **info)
+    return ok(**info)
+
+
 LANES = [
+    Lane(name="live", run_case=run_live, enumerate=enum_live, budget={"quick": 0, "thorough": 1},
+         shards={"quick": 1, "thorough": 4}, nontrivial=lambda c, v: c["plain"] is not None or c["v"] in ("1.0", "1.1"),
+         labels=lambda c, v: [c["row"], "plaintext" if c["plain"] is not None else "v" + c["v"]], exhaustive=True,
+         rule="real start_server on loopback sockets (supplied / auto-generated certificate x with / without certificate "
+              "rules): 4 protocol versions from a permissive peer and 6 plaintext payloads each (thorough tier only)"),
     Lane(name="server-matrix", run_case=run_server, enumerate=enum_server, budget={"quick": 1, "thorough": 1},
          shards={"quick": 16, "thorough": 16}, nontrivial=lambda c, v: c["v"] in ("1.0", "1.1"),
          labels=lambda c, v: [c["row"], "v" + c["v"], "hs" if v.info.get("handshake") else "refused"], exhaustive=True,
